@@ -1,6 +1,7 @@
 // C02 relational-refinement harness.
 //
-//   c02_ops sets                          print the symbol sets (`ss …` lines for the Lean driver)
+//   c02_ops sets <seed>                   print the symbol sets (`ss …` lines for the Lean driver);
+//                                         sets 0..8 are fixed, 9..14 are generated from <seed>
 //   c02_ops run <seed> <first> <last>     run scenarios first..last-1 (deterministic in seed, index)
 //   c02_ops big                           admissibility probe for very long genomes
 //
@@ -46,15 +47,139 @@ void watchdog(unsigned seconds)
   setitimer(ITIMER_PROF, &t, nullptr);
 }
 
+// ---------------------------------------------------------------- user-defined symbols
+// "A gene supports functions with more than 4 arguments" (gene.h): the argument pack of such a
+// gene lives on the heap (small_vector<packed_index_t, gene::k_args>), that of the shipped
+// primitives (arity <= 4) in the gene itself.  The sets below mix both kinds.  Every
+// user-defined symbol works on doubles; a function fetches EVERY argument (so that executing a
+// result walks each argument it carries) and adds up the available values.
+class uconst final : public terminal
+{
+public:
+  uconst(const std::string &n, category_t c, double v) : terminal(n, c), v_(v) {}
+  value_t eval(symbol_params &) const override { return v_; }
+private:
+  double v_;
+};
+
+class uparam final : public terminal
+{
+public:
+  uparam(const std::string &n, category_t c) : terminal(n, c) {}
+  bool parametric() const override { return true; }
+  terminal_param_t init() const override { return double(vita::random::between(-8, 9)) / 4.0; }
+  value_t eval(symbol_params &p) const override { return double(p.fetch_param()); }
+};
+
+class nary final : public function
+{
+public:
+  nary(const std::string &n, category_t c, cvect a) : function(n, c, std::move(a)) {}
+  value_t eval(symbol_params &p) const override
+  {
+    double acc = 0.0;
+    for (unsigned k = 0; k < arity(); ++k)
+    {
+      const value_t v(p[k]);
+      if (has_value(v) && std::holds_alternative<D_DOUBLE>(v))
+      {
+        const double d = std::get<D_DOUBLE>(v);
+        if (std::isfinite(d)) acc = acc / 2.0 + d;
+      }
+    }
+    return acc;
+  }
+};
+
+std::string uname(const char *p, unsigned a, unsigned b) { return std::string(p) + std::to_string(a) + "_" + std::to_string(b); }
+
 // ---------------------------------------------------------------- symbol sets
-constexpr unsigned NSETS = 6;
+constexpr unsigned NFIXED = 9;    // hand-written sets
+constexpr unsigned NGEN = 6;      // sets generated from the seed
+constexpr unsigned NSETS = NFIXED + NGEN;
+constexpr unsigned MAXSYMS = 96;
+
+// a symbol set drawn from the seed: 1..4 categories; in every category 1..3 terminals (some
+// parametric, weights from 0.01 to 3 and possibly one of weight 0 beside a selectable one) and
+// 0..5 functions of arity 1..8 (now and then up to 12) with arbitrary argument categories, so that
+// one category mixes inline (<= gene::k_args) and heap argument packs
+void build_generated_set(std::uint64_t seed, unsigned id, problem &p)
+{
+  verif::splitmix g(seed * 7777777ull + id * 1009ull + 5);
+  static const double ws[] = {0.01, 0.02, 0.5, 1.0, 1.0, 2.0, 3.0};
+  auto &s = p.sset;
+  const unsigned cats = 1 + unsigned(g.below(4));
+  bool heap = false;
+  for (unsigned c = 0; c < cats; ++c)
+  {
+    const unsigned nt = 1 + unsigned(g.below(3));
+    for (unsigned t = 0; t < nt; ++t)
+    {
+      double w = ws[g.below(7)];
+      if (t > 0 && g.below(8) == 0) w = 0.0;       // never selectable (the first one always is)
+      if (g.below(3) == 0) s.insert(std::make_unique<uparam>(uname("P", c, t), c), w);
+      else                 s.insert(std::make_unique<uconst>(uname("K", c, t), c, double(c) + t / 4.0), w);
+    }
+    unsigned nf = unsigned(g.below(6));
+    if (c + 1 == cats && !heap && nf == 0) nf = 1;
+    for (unsigned f = 0; f < nf; ++f)
+    {
+      unsigned ar = 1 + unsigned(g.below(8));
+      if (g.below(12) == 0) ar = 9 + unsigned(g.below(4));
+      if (c + 1 == cats && !heap && f + 1 == nf) ar = 5 + unsigned(g.below(4));   // at least one heap pack per set
+      heap = heap || ar > gene::k_args;
+      cvect a(ar);
+      for (auto &x : a) x = category_t(g.below(cats));
+      s.insert(std::make_unique<nary>(uname("F", c, f) + "_" + std::to_string(ar), c, a), ws[g.below(7)]);
+    }
+  }
+}
 
 void build_set(unsigned id, problem &p)
 {
   symbol_factory f;
   auto &s = p.sset;
+  auto all = [](unsigned n, category_t c) { return cvect(n, c); };
   switch (id)
   {
+  case 6:   // one category, arities 0..8 side by side (mixed with shipped primitives), a rare heap function
+    s.insert(std::make_unique<uparam>("P", 0), 2.0);
+    s.insert(std::make_unique<uconst>("K1", 0, 1.0));
+    s.insert(std::make_unique<uconst>("K2", 0, 2.0), 0.01);       // rare terminal
+    s.insert(std::make_unique<real::add>(cvect{0}));
+    s.insert(std::make_unique<real::ifl>(cvect{0, 0}));
+    for (unsigned ar = 1; ar <= 8; ++ar)
+      s.insert(std::make_unique<nary>("N" + std::to_string(ar), 0, all(ar, 0)),
+               ar == 8 ? 0.02 : ar == 5 ? 2.0 : ar == 3 ? 0.5 : 1.0);
+    break;
+  case 7:   // three categories, strongly typed, every category mixes inline and heap packs
+    s.insert(std::make_unique<uconst>("A", 0, 0.5));
+    s.insert(std::make_unique<uparam>("PA", 0), 0.5);
+    s.insert(std::make_unique<nary>("G2", 0, cvect{0, 1}));
+    s.insert(std::make_unique<nary>("G5", 0, cvect{0, 1, 2, 0, 1}), 2.0);
+    s.insert(std::make_unique<nary>("G6", 0, all(6, 0)));
+    s.insert(std::make_unique<nary>("G3", 0, cvect{2, 2, 0}), 0.5);
+    s.insert(std::make_unique<uconst>("B", 1, 1.5), 3.0);
+    s.insert(std::make_unique<uconst>("B2", 1, 2.5), 0.02);       // rare
+    s.insert(std::make_unique<nary>("H7", 1, cvect{1, 0, 2, 1, 0, 2, 1}));
+    s.insert(std::make_unique<nary>("H1", 1, cvect{0}));
+    s.insert(std::make_unique<nary>("H4", 1, cvect{1, 1, 2, 2}), 0.5);
+    s.insert(std::make_unique<uparam>("PC", 2));
+    s.insert(std::make_unique<uconst>("C", 2, 3.0), 0.0);         // never selectable
+    s.insert(std::make_unique<nary>("J8", 2, all(8, 2)), 0.5);
+    s.insert(std::make_unique<nary>("J5", 2, cvect{0, 1, 2, 1, 0}));
+    break;
+  case 8:   // the boundary gene::k_args / k_args + 1; a category whose functions are all on the heap
+    s.insert(std::make_unique<real::real>(cvect{0}));
+    s.insert(std::make_unique<uconst>("Z", 0, 0.0), 0.5);
+    s.insert(std::make_unique<nary>("Q4", 0, all(gene::k_args, 0)));
+    s.insert(std::make_unique<nary>("Q5", 0, all(gene::k_args + 1, 0)));
+    s.insert(std::make_unique<nary>("Q5m", 0, cvect{1, 0, 1, 0, 1}));
+    s.insert(std::make_unique<uconst>("Y", 1, 1.0));
+    s.insert(std::make_unique<uparam>("PY", 1), 0.5);
+    s.insert(std::make_unique<nary>("R5", 1, cvect{0, 0, 1, 1, 0}));
+    s.insert(std::make_unique<nary>("R6", 1, all(6, 1)), 0.5);
+    break;
   case 0:   // one category, reals, parametric terminal
     s.insert(std::make_unique<real::real>(cvect{0}), 2.0);
     s.insert(f.make("1.0", {0}));
@@ -129,21 +254,24 @@ struct setinfo
 {
   problem prob;
   std::vector<const symbol *> syms;   // registry, in opcode order
+  unsigned max_arity = 0;
 };
 
 std::vector<std::unique_ptr<setinfo>> sets;
 
-void build_sets()
+void build_sets(std::uint64_t seed)
 {
   for (unsigned id = 0; id < NSETS; ++id)
   {
     auto si = std::make_unique<setinfo>();
     si->prob.env.init();
-    build_set(id, si->prob);
+    if (id < NFIXED) build_set(id, si->prob); else build_generated_set(seed, id, si->prob);
     // the registry is read back from the symbol set through its public interface
-    for (opcode_t o = 0; o < 100000 && si->syms.size() < 64; ++o)
+    for (opcode_t o = 0; o < 100000 && si->syms.size() < MAXSYMS; ++o)
       if (const symbol *s = si->prob.sset.decode(o))
         si->syms.push_back(s);
+    for (const symbol *s : si->syms)
+      si->max_arity = std::max(si->max_arity, s->arity());
     sets.push_back(std::move(si));
   }
 }
@@ -443,6 +571,19 @@ struct oracle
 };
 
 // ---------------------------------------------------------------- running
+// The pool of operands only ever COPY-CONSTRUCTS individuals (never assigns one over another): the
+// bookkeeping of the harness must not run library code (gene / small_vector assignment) that could
+// itself damage an operand; what an operator receives is what an earlier operator returned.
+template<class T> struct pool_t
+{
+  std::vector<std::unique_ptr<const T>> v;
+  std::size_t size() const { return v.size(); }
+  bool empty() const { return v.empty(); }
+  const T &operator[](std::size_t k) const { return *v[k]; }
+  void push_back(const T &x) { v.push_back(std::make_unique<const T>(x)); }
+  void set(std::size_t k, const T &x) { v[k] = std::make_unique<const T>(x); }
+};
+
 struct runner
 {
   unsigned scenario = 0, opn = 0;
@@ -476,8 +617,59 @@ struct runner
   static std::string S(const i_mep &x) { std::ostringstream o; put_ind(o, x); return o.str(); }
   template<class T> static std::string N(T v) { return " " + std::to_string(v); }
 
+  // evidence: histogram of the REAL argument counts (gene::args.size(), not the symbol's arity) of
+  // the genes of the result (ar9 = more than 8) …
+  unsigned ar_[10] = {};
+  void hist_add(const i_mep &x)
+  {
+    for (index_t i = 0; i < x.size(); ++i)
+      for (category_t c = 0; c < x.categories(); ++c)
+        ++ar_[std::min<std::size_t>(x[{i, c}].args.size(), 9)];
+  }
+  void hist_note()
+  {
+    for (unsigned k = 0; k < 10; ++k)
+    { if (ar_[k]) note("ar" + std::to_string(k), ar_[k]); ar_[k] = 0; }
+  }
+  // … and the loci overwritten across the inline / heap boundary of the argument pack
+  // (`shrink`: a heap pack assigned a shorter one; `grow`: an inline pack assigned a heap one;
+  // `heap2heap`: a heap pack assigned one at least as long)
+  unsigned tr_[3] = {};
+  void trans_add(const i_mep &pre, const i_mep &post)
+  {
+    if (pre.size() != post.size() || pre.categories() != post.categories()) return;
+    for (index_t i = 0; i < pre.size(); ++i)
+      for (category_t c = 0; c < pre.categories(); ++c)
+      {
+        const gene &a = pre[{i, c}], &b = post[{i, c}];
+        if (same_gene(a, b)) continue;
+        const std::size_t o = a.sym ? a.sym->arity() : 0, n = b.sym ? b.sym->arity() : 0;
+        if (o > gene::k_args && n < o) ++tr_[0];
+        else if (o > gene::k_args) ++tr_[2];
+        else if (n > gene::k_args) ++tr_[1];
+      }
+  }
+  // crossover: which parent is overwritten is a draw; count the loci where the parents' packs differ
+  // in length, one of them is on the heap and the offspring holds the gene of one of them
+  void trans_add2(const i_mep &l, const i_mep &r, const i_mep &post)
+  {
+    if (l.size() != post.size() || r.size() != post.size() || l.categories() != post.categories()) return;
+    for (index_t i = 0; i < l.size(); ++i)
+      for (category_t c = 0; c < l.categories(); ++c)
+      {
+        const std::size_t a = l[{i, c}].sym->arity(), b = r[{i, c}].sym->arity();
+        if (a != b && std::max(a, b) > gene::k_args) ++tr_[post[{i, c}].args.size() == std::min(a, b) ? 0 : 1];
+      }
+  }
+  void trans_note(bool cross = false)
+  {
+    static const char *n1[] = {"shrink", "grow", "heap2heap"}, *n2[] = {"xshort", "xlong", "-"};
+    for (unsigned k = 0; k < 3; ++k)
+    { if (tr_[k]) note(cross ? n2[k] : n1[k], tr_[k]); tr_[k] = 0; }
+  }
+
   void shape(unsigned id, const i_mep &x)
-  { note("set", id); note("rows", x.size()); note("cols", x.categories()); }
+  { note("set", id); note("rows", x.size()); note("cols", x.categories()); hist_add(x); hist_note(); }
 
   // ---- one real operator call each; prints the request/answer pair, returns the result
   i_mep op_random(unsigned id, index_t pl)
@@ -502,7 +694,7 @@ struct runner
     begin("mutation" + N(id) + N(pl) + N(pgm == 0.0 ? 1 : 0) + S(a));
     const unsigned n = x.mutation(pgm, si.prob);
     const bool st = o.mutation_step(a, x, pl, n, pgm == 0.0), wf = o.wf(x);
-    shape(id, x); note("pl", pl); note("pgm%", int(pgm * 100)); note("n", n);
+    shape(id, x); note("pl", pl); note("pgm%", int(pgm * 100)); note("n", n); trans_add(a, x); trans_note();
     note("trivial", o.changed(a, x) == 0);
     end("mutation", S(x) + N(n), wf, st, wf && x.is_valid(), wf ? exec(x) : "skipped", true, o.why);
     last_ok = wf;
@@ -516,7 +708,7 @@ struct runner
     begin("crossover" + N(id) + S(l) + S(r));
     const i_mep x(crossover(l, r));
     const bool st = o.cross_step(l, r, x), wf = o.wf(x);
-    shape(id, x); note("flavour", int(x.verif_crossover_type()));
+    shape(id, x); note("flavour", int(x.verif_crossover_type())); trans_add2(l, r, x); trans_note(true);
     note("forced", l.verif_crossover_type() == r.verif_crossover_type());
     note("ages_differ", l.age() != r.age());
     note("trivial", o.changed(l, x) == 0 || o.changed(r, x) == 0);
@@ -547,6 +739,7 @@ struct runner
     const bool wf = o.wf(x);
     const bool st = o.replace_step(a, l, x);
     shape(id, x); note("at_best", at_best); note("trivial", o.changed(a, x) == 0);
+    if (expect_ok) { trans_add(a, x); trans_note(); }
     if (expect_ok)
     {
       end("replace", S(x), wf, st, wf && x.is_valid(), wf ? exec(x) : "skipped", true, o.why);
@@ -564,7 +757,7 @@ struct runner
     begin("destroy" + N(id) + N(idx) + S(a));
     const i_mep x(a.destroy_block(idx, si.prob.sset));
     const bool st = o.destroy_step(a, idx, x), wf = o.wf(x);
-    shape(id, x); note("trivial", o.changed(a, x) == 0);
+    shape(id, x); note("trivial", o.changed(a, x) == 0); trans_add(a, x); trans_note();
     end("destroy", S(x), wf, st, wf && x.is_valid(), wf ? exec(x) : "skipped", true, o.why);
     last_ok = wf;
     return x;
@@ -623,6 +816,8 @@ struct runner
     bool st = t.individuals() == k;
     for (const auto &x : t) st = o.random_step(x, si.prob.env.mep.code_length, pl) && st;
     note("set", id); note("rows", si.prob.env.mep.code_length); note("team", k);
+    for (const auto &x : t) hist_add(x);
+    hist_note();
     const bool wf = twf(o, t, k);
     end("trandom", ST(t), wf, st, wf && t.is_valid(), wf ? texec(t) : "skipped", true, o.why);
     last_ok = wf;
@@ -647,6 +842,8 @@ struct runner
     }
     if (st && tot != n) { st = false; o.fail("team-mutation-count"); }
     note("set", id); note("rows", a[0].size()); note("team", k); note("n", n); note("trivial", tot == 0);
+    for (unsigned m = 0; m < k && m < t.individuals(); ++m) { hist_add(t[m]); trans_add(a[m], t[m]); }
+    hist_note(); trans_note();
     const bool wf = twf(o, t, k);
     end("tmutation", ST(t) + N(n), wf, st, wf && t.is_valid(), wf ? texec(t) : "skipped", true, o.why);
     last_ok = wf;
@@ -663,8 +860,61 @@ struct runner
     bool st = t.individuals() == k;
     for (unsigned m = 0; m < k && st; ++m) st = o.cross_step(l[m], r[m], t[m]);
     note("set", id); note("rows", l[0].size()); note("team", k);
+    for (unsigned m = 0; m < k && m < t.individuals(); ++m) { hist_add(t[m]); trans_add2(l[m], r[m], t[m]); }
+    hist_note(); trans_note(true);
     const bool wf = twf(o, t, k);
     end("tcrossover", ST(t), wf, st, wf && t.is_valid(), wf ? texec(t) : "skipped", true, o.why);
+    last_ok = wf;
+    return t;
+  }
+
+  // team<T>::inc_age(): every member ages, nothing else changes
+  team_t op_tincage(unsigned id, const team_t &a)
+  {
+    setinfo &si = *sets[id];
+    oracle o{si};
+    const unsigned k = a.individuals();
+    begin("tincage" + N(id) + N(k) + ST(a));
+    team_t t(a);
+    t.inc_age();
+    bool st = t.individuals() == k;
+    for (unsigned m = 0; m < k && st; ++m)
+    {
+      st = t[m].size() == a[m].size() && t[m].categories() == a[m].categories() && t[m].best() == a[m].best()
+           && t[m].verif_crossover_type() == a[m].verif_crossover_type() && o.changed(a[m], t[m]) == 0;
+      if (!st) o.fail("team-inc-age-changed-a-member");
+      else if (t[m].age() != a[m].age() + 1) { st = false; o.fail("age"); }
+    }
+    note("set", id); note("rows", a[0].size()); note("team", k);
+    for (unsigned m = 0; m < k && m < t.individuals(); ++m) hist_add(t[m]);
+    hist_note();
+    const bool wf = twf(o, t, k);
+    end("tincage", ST(t), wf, st, wf && t.is_valid(), wf ? texec(t) : "skipped", true, o.why);
+    last_ok = wf;
+    return t;
+  }
+
+  // team(std::vector<T>): the team made of the given individuals, in order
+  team_t op_tmembers(unsigned id, const std::vector<i_mep> &v)
+  {
+    setinfo &si = *sets[id];
+    oracle o{si};
+    const unsigned k = unsigned(v.size());
+    std::string pre;
+    for (const auto &x : v) pre += S(x);
+    begin("tmembers" + N(id) + N(k) + pre);
+    const team_t t(v);
+    bool st = t.individuals() == k;
+    for (unsigned m = 0; m < k && st; ++m)
+    {
+      st = o.same_meta(v[m], t[m], true);
+      if (st && o.changed(v[m], t[m])) { st = false; o.fail("team-member-differs-from-the-given-individual"); }
+    }
+    note("set", id); note("rows", v[0].size()); note("team", k); note("trivial", 0);
+    for (unsigned m = 0; m < k && m < t.individuals(); ++m) hist_add(t[m]);
+    hist_note();
+    const bool wf = twf(o, t, k);
+    end("tmembers", ST(t), wf, st, wf && t.is_valid(), wf ? texec(t) : "skipped", true, o.why);
     last_ok = wf;
     return t;
   }
@@ -676,11 +926,11 @@ struct runner
     problem &p = si.prob;
     p.env.mep.code_length = len;
     p.env.mep.patch_length = pl;
-    std::vector<i_mep> pool;
+    pool_t<i_mep> pool;
     unsigned flav = unsigned(rng.below(4));
 
     auto add = [&](const i_mep &x)
-    { if (!last_ok) return; if (pool.size() < 6) pool.push_back(x); else pool[rng.below(pool.size())] = x; };
+    { if (!last_ok) return; if (pool.size() < 6) pool.push_back(x); else pool.set(rng.below(pool.size()), x); };
 
     const unsigned n0 = 2 + unsigned(rng.below(3));
     for (unsigned k = 0; k < n0; ++k)
@@ -742,10 +992,17 @@ struct runner
         for (index_t i = 0; i < len; ++i)
           for (category_t c = 0; c < a.categories(); ++c)
             if (a[{i, c}].sym->arity()) fl.push_back({i, c});
-        const unsigned kind = unsigned(rng.below(3));
+        const unsigned kind = unsigned(rng.below(4));
         locus l{index_t(rng.below(len)), category_t(rng.below(a.categories()))};
         gene g(a[l]);
-        if (kind == 0 && !fl.empty())
+        if (kind == 3)
+        {
+          // argument count != arity: one argument too few / too many (possibly a terminal carrying one)
+          if (!fl.empty() && rng.below(3)) { l = fl[rng.below(fl.size())]; g = a[l]; }
+          if (g.args.size() && rng.below(2)) g.args.resize(g.args.size() - 1);
+          else g.args.push_back(gene::packed_index_t(std::min<index_t>(l.index + 1, len - 1)));
+        }
+        else if (kind == 0 && !fl.empty())
         { l = fl[rng.below(fl.size())]; g = a[l]; g.args[rng.below(g.args.size())] = gene::packed_index_t(l.index); }
         else if (kind == 1 && !fl.empty())
         { l = fl[rng.below(fl.size())]; g = a[l]; g.args[rng.below(g.args.size())] = gene::packed_index_t(len + rng.below(3)); }
@@ -769,7 +1026,7 @@ struct runner
     problem &p = si.prob;
     p.env.mep.code_length = len;
     p.env.mep.patch_length = pl;
-    std::vector<team_t> pool;
+    pool_t<team_t> pool;
     unsigned flav = unsigned(rng.below(4));
     for (unsigned j = 0; j < 2; ++j)
     {
@@ -781,10 +1038,26 @@ struct runner
     {
       const team_t a(pool[rng.below(pool.size())]);
       team_t t;
-      if (rng.below(2))
+      const unsigned r = unsigned(rng.below(20));
+      if (r < 8)
       {
         static const double ps[] = {0.0, 0.1, 0.5, 1.0};
         t = op_tmutation(id, pl, ps[rng.below(4)], a);
+      }
+      else if (r < 10)
+        t = op_tincage(id, a);
+      else if (r < 12)
+      {
+        // a team assembled from members of (possibly different) teams of the pool and fresh individuals
+        std::vector<i_mep> v;
+        for (unsigned m = 0; m < k && last_ok; ++m)
+        {
+          const team_t &src = pool[rng.below(pool.size())];
+          if (rng.below(4) == 0) v.push_back(op_random(id, pl));
+          else v.push_back(src[unsigned(rng.below(src.individuals()))]);
+        }
+        if (!last_ok) break;
+        t = op_tmembers(id, v);
       }
       else
       {
@@ -805,7 +1078,7 @@ struct runner
         t = op_tcrossover(id, team_t(va), team_t(vb));
       }
       if (!last_ok) break;
-      if (pool.size() < 4) pool.push_back(t); else pool[rng.below(pool.size())] = t;
+      if (pool.size() < 4) pool.push_back(t); else pool.set(rng.below(pool.size()), t);
     }
   }
 
@@ -829,7 +1102,7 @@ struct runner
     std::cout << "S " << k << " set=" << id << " len=" << len << " pl=" << pl << " hist=" << hist
               << " team=" << team_mode << "\n";
     if (team_mode)
-      team_scenario(id, len, pl, std::min(hist, 12u), 1 + unsigned(rng.below(4)));
+      team_scenario(id, len, pl, std::min(hist, 12u), 1 + unsigned(rng.below(6)));
     else
       individual_scenario(id, len, pl, hist);
   }
@@ -909,7 +1182,13 @@ int main(int argc, char **argv)
   log::reporting_level = log::lOFF;
   std::ios::sync_with_stdio(false);
   const std::string mode = argc > 1 ? argv[1] : "";
-  build_sets();
+  build_sets((mode == "sets" || mode == "run" || mode == "replay") && argc > 2 ? std::stoull(argv[2]) : 0);
+  for (unsigned id = 0; id < NSETS; ++id)
+    if (!sets[id]->prob.sset.is_valid() || sets[id]->syms.size() >= MAXSYMS)
+    {
+      std::cerr << "c02_ops: symbol set " << id << " is not usable (harness bug)\n";
+      return 3;
+    }
 
   if (mode == "sets")
   {
